@@ -24,6 +24,7 @@ from liquid2.builtin import parse_string_or_path
 from liquid2.exceptions import LiquidSyntaxError
 from liquid2.exceptions import LiquidTypeError
 from liquid2.exceptions import TemplateNotFoundError
+from liquid2.limits import to_str
 
 if TYPE_CHECKING:
     from liquid2 import RenderContext
@@ -83,7 +84,7 @@ class IncludeNode(Node):
 
         try:
             template = context.env.get_template(
-                str(name), context=context, tag=self.tag
+                to_str(name), context=context, tag=self.tag
             )
         except TemplateNotFoundError as err:
             err.token = self.name.token
@@ -132,7 +133,7 @@ class IncludeNode(Node):
 
         try:
             template = await context.env.get_template_async(
-                str(name), context=context, tag=self.tag
+                to_str(name), context=context, tag=self.tag
             )
         except TemplateNotFoundError as err:
             err.token = self.name.token
